@@ -54,6 +54,7 @@ def to_scenario(case):
     base = SCENARIOS[case["scenario"]]
     v = dict(base["victim"])
     v["faults"] = {k: f for k, f in (case.get("faults") or {}).items() if not k.startswith("L") and not k.startswith("idle")}
+    v["sticky_faults"] = bool(case.get("sticky"))   # the failing socket stays dead: every later send / recv fails the same way
     for k, f in (case.get("faults") or {}).items():
         if k.startswith("idle"):
             v["late_error"] = f   # the idle connection reports an asynchronous socket error at the next recv
@@ -61,6 +62,8 @@ def to_scenario(case):
     late = {"segments": [req(2, 0)], "late": True}
     adj = dict(base.get("adj") or {})
     adj.setdefault("threads", 1)
+    if "lse" in case:
+        adj["log_socket_errors"] = bool(case["lse"])
     lf = {k[1:]: f for k, f in (case.get("faults") or {}).items() if k.startswith("L")}
     return {"adj": adj, "gran": case.get("gran", "sync"), "apps": base["apps"], "sndbuf": base.get("sndbuf", 1 << 20), "infinite_timeouts": True,
             "conns": [v, by, late], "listener_faults": [lf]}
@@ -146,7 +149,9 @@ def run_case_full(case, source=None, record=False):
             fail("map-mutated-by-worker", "thread %s did %s on the socket map (fd %r) (faults %s)" % (th, op, k, what))
             break
     for cb in r.chan_buffers:
-        if not cb["in_map"] and (cb["open_outbuf_files"] or cb["tol"]):
+        # (bytes merely *accounted* on a channel that is gone hold no resource: e.g. the 25-byte interim response a worker appends
+        # just after the I/O thread closed the channel; what must not survive the teardown is an open buffer or wrapped file)
+        if not cb["in_map"] and cb["open_outbuf_files"]:
             fail("buffers-not-released", "torn-down channel keeps %d open buffer file(s) / %d bytes accounted (faults %s)" % (cb["open_outbuf_files"], cb["tol"], what))
     # a connection the server considers gone must not stay registered / open (descriptor leak)
     for ch in r.snap["channels"]:
@@ -154,6 +159,9 @@ def run_case_full(case, source=None, record=False):
             fail("zombie-channel", "a connection is marked disconnected but is still registered with the loop and its socket is open (faults %s)" % what)
     if r.spin:
         fail("spin", "the loop spins after the fault (faults %s): %r" % (what, r.snap["channels"]))
+    if case.get("sticky") and any(f[1] in ("send", "recv") and f[3] != "EOF" for f in r.conns[0]["faults_hit"]) and not r.conns[0]["close_calls"] and not fails:
+        fail("dead-connection-not-torn-down", "the victim's socket fails every send / recv since the fault (%s), yet the server never closed it: %r" % (
+            what, [c for c in r.snap["channels"]]))
     labels = {"scenario:" + case["scenario"], "gran:" + case.get("gran", "sync")}
     reached = bool(hit) or any(k.startswith("L") for k in plan)
     for k, v in plan.items():
@@ -222,6 +230,13 @@ def single_placements(name):
                 if f == "EOF" and op != "recv":
                     continue
                 yield {"scenario": name, "faults": {"%s:%d" % (op, i): f}}
+                if op in ("send", "recv") and f != "EOF":
+                    yield {"scenario": name, "faults": {"%s:%d" % (op, i): f}, "sticky": True}
+                    if f in ("EINVAL", "generic", "EPIPE"):
+                        yield {"scenario": name, "faults": {"%s:%d" % (op, i): f}, "sticky": True, "lse": False}
+                if op in ("send", "recv") and f in ("EINVAL", "generic", "ECONNRESET"):
+                    # the same placement with log_socket_errors off (whether an error is logged must not decide whether it is handled)
+                    yield {"scenario": name, "faults": {"%s:%d" % (op, i): f}, "lse": False}
 
 
 def jobs(tier, seed):
@@ -248,7 +263,12 @@ def case_strategy():
             i = draw(st.integers(0, sites.get(op, 0)))
             f = draw(st.sampled_from(FAULTS if op == "recv" else FAULTS[:-1]))
             faults["%s:%d" % (op, i)] = f
-        return {"scenario": name, "faults": faults, "gran": draw(st.sampled_from(["sync", "sync", "line"])), "schedule": draw(S.schedule_strategy())}
+        case = {"scenario": name, "faults": faults, "gran": draw(st.sampled_from(["sync", "sync", "line"])), "schedule": draw(S.schedule_strategy())}
+        if draw(st.integers(0, 2)) == 0:
+            case["lse"] = False
+        if draw(st.booleans()):
+            case["sticky"] = True
+        return case
 
     return build()
 
